@@ -121,7 +121,7 @@ def explore(ctx, extended=False, focus=None):
                "model-compared at V+S; (b) width enforcement by exhaustive witness search over p=97 (to_bits(n), assert_positive(n)); "
                "(c) packer schemas of depth <= 3 on plain values, plain out-of-range values, secret values (integers as PrivVal; "
                "booleans as PrivVal and as PrivValBool); distinct = distinct (schema, value, mode) / (width, value, bitlength)")
-    n = ctx.n(250, 6000) * (2 if extended else 1)
+    n = ctx.n(750, 18000) * (2 if extended else 1)
     cases = corpus_cases("C16") + [bits_case(ctx.rnd, f"c16_{i}", small=False) for i in range(n)]
     twice = [bits_twice_case(ctx.rnd, f"c16t_{i}") for i in range(n // 2)]
     for r in execute_all(twice):
@@ -173,7 +173,7 @@ def explore(ctx, extended=False, focus=None):
     for k, v in sub.hist.items(): ex.hist[k] = ex.hist.get(k, 0) + v
     # (c) packers
     jobs = []
-    for i in range(ctx.n(300, 6000)):
+    for i in range(ctx.n(900, 18000)):
         s = gen_schema(ctx.rnd)
         mode = ctx.rnd.choice(["plain", "plain", "plain-bad", "secret:int", "secret:int", "secret:bool"])
         bad = mode == "plain-bad" and has(s, '"M"')
